@@ -1,9 +1,14 @@
 #!/bin/sh
-# regenerates coq/_CoqProject from the files present (no hand-maintained list)
+# regenerates coq/_CoqProject from the files present (no hand-maintained list); files matching a pattern listed in
+# coq/.skip (one grep pattern per line; untracked, used while a file is under construction) are left out
 cd "$(dirname "$0")/../coq" || exit 1
 {
   echo "-Q . QF"
   echo "-arg -w -arg -notation-overridden,-deprecated-hint-without-locality,-deprecated-instance-without-locality,-ambiguous-paths"
-  find Base Gen Model Proofs Properties Corr -name '*.v' | LC_ALL=C sort
+  if [ -s .skip ]; then
+    find Base Gen Model Proofs Properties Corr -name '*.v' | LC_ALL=C sort | grep -v -f .skip
+  else
+    find Base Gen Model Proofs Properties Corr -name '*.v' | LC_ALL=C sort
+  fi
 } > _CoqProject.new
 if ! cmp -s _CoqProject.new _CoqProject; then mv _CoqProject.new _CoqProject; else rm _CoqProject.new; fi
